@@ -209,6 +209,23 @@ Fixpoint quiet_after_close (l : list gev) : bool :=
   | _ :: r => quiet_after_close r
   end.
 
+(* orderly close: the first close() of an invoker that has not been closed yet runs on_close (GClose among the events of that
+   very call), whether or not the agent was ever started or is running; and a failed on_start (GStart and GErr in one start
+   call) closes the agent in the same call.  `closed` = a GClose has been seen before. *)
+Fixpoint inv_close_monitor (ops : list iop) (o : list (outcome Z * list gev)) (closed : bool) : bool :=
+  match ops, o with
+  | [], [] => true
+  | op :: ops', (_, ev) :: o' =>
+      let has_close := existsb (gev_eqb GClose) ev in
+      match op with
+      | IClose => closed || has_close
+      | IStart => if existsb (gev_eqb GStart) ev && existsb (gev_eqb GErr) ev then closed || has_close else true
+      | _ => true
+      end && inv_close_monitor ops' o' (closed || has_close)
+  | _, _ => false
+  end.
+Definition holds_inv_close (ops : list iop) (o : list (outcome Z * list gev)) : bool := inv_close_monitor ops o false.
+
 Definition holds_inv (ops : list iop) (o : list (outcome Z * list gev)) : bool :=
   let ev := all_events o in
   inv_monitor ops o false false
